@@ -230,6 +230,15 @@ class SymH:
             if ret == 'opaque':
                 f = H._uf(name + '!truthy', sig, z3.BoolSort())
                 return SOpaque(name, f(*enc) if enc else f())
+            if ret == 'same_nd_int':
+                # an INTEGER-typed ndarray of the argument's (concrete) length: componentwise integer functions
+                if Mo.seq_items(I, args[0]) is None:
+                    raise Unsupported('same_nd_int over a symbolic-length argument')
+                out = []
+                for j in range(len(Mo.seq_items(I, args[0]))):
+                    fj = H._uf('%s!i%d' % (name, j), sig, z3.IntSort())
+                    out.append(SV(fj(*enc), 'int'))
+                return I.st.alloc('clist', out, name=name + '_res', nd=True)
             if ret in ('same', 'same_nd') and Mo.seq_items(I, args[0]) is not None:
                 # concrete length: componentwise scalar functions (quantifier-free encoding)
                 nn = len(Mo.seq_items(I, args[0]))
